@@ -471,7 +471,7 @@ def gen_C03(rng, tier):
     # recursion per tag); model side: the closed form proved in C03_big_walk / C03_big_run
     big_tags = [E.tag(0x1337, b""), E.tag(1, b"hello\0"), E.tag(3, E.u32(0x1000) + E.u32(0x2000) + b"m\0"),
                 E.tag(21, E.u32(7)), E.tag(3, E.u32(5) + E.u32(5))]
-    for n in (0, 1, 2, 255, 256, 257, 4095, 65535, 65536, 65537, 70000) + ((150000, 1000000) if tier == "thorough" else ()):
+    for n in (0, 1, 2, 255, 256, 257, 4095, 65535, 65536, 65537, 70000) + ((150000, 400000) if tier == "thorough" else ()):
         for t in big_tags:
             if 16 + n * len(t) < 2 ** 25:
                 cases.append("bigwalk %d %s" % (n, hx(t)))
